@@ -469,6 +469,11 @@ func c06Directed() []c06Script {
 	add("credit", def, S(), open(0, true, 0), ph(0, false), pd(0, 4095, 0, false), rd(0, 4095), pd(0, 1, 0, false), rd(0, 1), pd(0, 8192, 10, false), rd(0, 100), rd(0, 100000),
 		pd(0, 16384, 256, false), pd(0, 16384, 1, false), c06Op{kind: "x", s: 0}, pd(0, 1000, 0, false), pd(0, 5000, 0, true),
 		open(0, true, 0), ph(1, false), pd(1, 3000, 0, false), c06Op{kind: "c", s: 1}, rd(1, 100), pd(1, 2000, 0, false), rd(1, 5000))
+	// 9b. several bodies read in small pieces, interleaved: the connection-level and the stream-level
+	//     refresh thresholds are crossed at different Reads
+	add("credit-interleaved", def, cat([]c06Op{S(), open(0, true, 0), open(0, true, 0), open(0, true, 0), ph(0, false), ph(1, false), ph(2, false),
+		pd(0, 16384, 0, false), pd(0, 16384, 0, false), pd(1, 16384, 0, false), pd(1, 16384, 0, false), pd(2, 16384, 0, false)},
+		rep(8, rd(0, 2048), rd(1, 2048)), rep(4, rd(0, 1000), rd(1, 3000), rd(2, 100), rd(0, 3000)), rep(3, rd(2, 4095), rd(1, 1), rd(0, 4095)))...)
 	// 10. RST_STREAM and GOAWAY in mid-upload
 	add("rst-goaway", def, S(), open(100000, true, 0), open(100000, true, 0), open(100000, false, 0), feed(0), c06Op{kind: "pr", s: 0, b: 8}, feed(1), c06Op{kind: "pg", s: -1, a: 3},
 		wu(-1, 1<<20), wu(1, 1<<20), feed(1), feed(1), feed(1), feed(1), feed(1), feed(1), ph(1, true))
@@ -749,7 +754,7 @@ func c06Gen(r *rand.Rand, maxOps int) func(e *c06Env, n int) *c06Op {
 					op.trlp1 = 1 + verifh.Pick(r, []int{0, 5, 100, 16300, 16384, 20000, 40000}) // declared trailers (also without a body)
 				}
 				return op
-			case k < 40: // feed
+			case k < 38: // feed
 				if len(feedable) == 0 || busy {
 					continue
 				}
@@ -758,7 +763,7 @@ func c06Gen(r *rand.Rand, maxOps int) func(e *c06Env, n int) *c06Op {
 					nn = verifh.Pick(r, []int{1, 100, 8192, 16383, 16384})
 				}
 				return &c06Op{kind: "f", s: verifh.Pick(r, feedable), a: nn}
-			case k < 50:
+			case k < 46:
 				inc := verifh.Pick(r, []int{1, 2, 100, 16383, 16384, 16385, 65535, 100000, 1 << 20, 1 << 24})
 				if r.Intn(3) == 0 || len(live) == 0 {
 					if e.connWin+int64(inc) > math.MaxInt32 {
@@ -771,7 +776,7 @@ func c06Gen(r *rand.Rand, maxOps int) func(e *c06Env, n int) *c06Op {
 					inc = math.MaxInt32 // stream-level overflow: the client must reset the stream
 				}
 				return &c06Op{kind: "pw", s: s, b: inc}
-			case k < 58:
+			case k < 53:
 				var vals []xhttp2.Setting
 				if r.Intn(3) != 0 {
 					w := verifh.Pick(r, []uint32{0, 1, 100, 16383, 16384, 65535, 65536, 1 << 20, 1 << 24, math.MaxInt32})
@@ -795,12 +800,12 @@ func c06Gen(r *rand.Rand, maxOps int) func(e *c06Env, n int) *c06Op {
 					vals = append(vals, c06Set(xhttp2.SettingHeaderTableSize, 4096), c06Set(xhttp2.SettingID(0x99), 7))
 				}
 				return &c06Op{kind: "ps", vals: vals}
-			case k < 60:
+			case k < 55:
 				if e.acksSent > 0 {
 					continue
 				}
 				return &c06Op{kind: "pa"}
-			case k < 68:
+			case k < 62:
 				if len(respondable) == 0 {
 					continue
 				}
@@ -822,7 +827,7 @@ func c06Gen(r *rand.Rand, maxOps int) func(e *c06Env, n int) *c06Op {
 					op.clp1 = 1 + verifh.Pick(r, []int{0, 1, 10, 4096, 16384, 100000}) // declared Content-Length (often too small for what follows)
 				}
 				return op
-			case k < 82:
+			case k < 74:
 				if len(dataable) == 0 {
 					continue
 				}
@@ -837,7 +842,7 @@ func c06Gen(r *rand.Rand, maxOps int) func(e *c06Env, n int) *c06Op {
 					continue // a conforming peer stays inside the windows the client advertised
 				}
 				return &c06Op{kind: "pd", s: s, a: nn, b: pad, flag: r.Intn(5) == 0}
-			case k < 84:
+			case k < 76:
 				// DATA the client must drop with a stream error - inside the windows it advertised
 				if len(discardable) == 0 {
 					continue
@@ -853,9 +858,9 @@ func c06Gen(r *rand.Rand, maxOps int) func(e *c06Env, n int) *c06Op {
 					continue
 				}
 				return &c06Op{kind: "pd", s: s, a: nn, b: pad, flag: r.Intn(4) == 0}
-			case k < 86:
+			case k < 78:
 				return &c06Op{kind: "pp", flag: r.Intn(8) == 0}
-			case k < 87:
+			case k < 79:
 				// the peer ends a response with a trailer block (rarely an illegal one: with a
 				// pseudo-header or without END_STREAM - a connection error)
 				if len(endable) == 0 {
@@ -875,7 +880,9 @@ func c06Gen(r *rand.Rand, maxOps int) func(e *c06Env, n int) *c06Op {
 				if len(readable) == 0 {
 					continue
 				}
-				return &c06Op{kind: "r", s: verifh.Pick(r, readable), a: verifh.Pick(r, []int{1, 100, 4095, 4096, 5000, 65536, 1 << 20})}
+				// (several bodies read in pieces below the 4096 refresh threshold: the connection's and
+				// the streams' inflows then cross it at different Reads)
+				return &c06Op{kind: "r", s: verifh.Pick(r, readable), a: verifh.Pick(r, []int{1, 100, 1000, 2048, 3000, 4095, 4096, 5000, 65536, 1 << 20})}
 			case k < 94:
 				if len(closable) == 0 {
 					continue
